@@ -4,7 +4,7 @@
 # 3. the demonstration fails with the change and passes without it.
 set -e
 id=$1; name=${2:-$1}
-src=/tmp/seed/$id/SEED
+src=${SEEDBASE:-/tmp/seed}/$id/SEED
 [ -f "$src/patch.diff" ] || { echo "no patch for $id"; exit 2; }
 d=$(mktemp -d /var/tmp/seedv-XXXXXX)
 trap 'rm -rf "$d"' EXIT
